@@ -46,7 +46,7 @@ impl AsFd for RootRef<'_> {
     fn as_fd(&self) -> (r: BorrowedFd<'_>) { self.inner }
 }
 impl RootRef<'_> {
-//@prove root.RootRef.mkdir_all
+//@prove root.RootRef.mkdir_all c12
 }
 } // verus!
 fn main() {}
